@@ -2,6 +2,7 @@ import Tetro.Model.Apu
 import Tetro.Spec.Apu
 import Tetro.Lemmas.ApuRegs
 import Tetro.Lemmas.ApuStatus
+import Tetro.Lemmas.ApuRam
 /-
 C18 – sound registers read back through their masks and obey APU power.
 
@@ -306,13 +307,48 @@ theorem c18_off_masks (hl hr : Bool) (ops : List Op) (v : Nat) (hv : v % 256 < 1
     rw [R.on (R_run _ (R_new hl hr)), hspec]
 
 /-- **C18 (wave RAM persists).**  Wave RAM is changed only by writes to FF30–FF3F and by a trigger
-    of channel 3 (NR34 bit 7, the DMG corruption quirk): every other history – power cycles, all
-    other register writes, any number of machine cycles – leaves all 16 bytes as they were … -/
+    of channel 3 (NR34 bit 7, the DMG corruption quirk): every other history – NR52 power cycles
+    included, all other register writes, any number of machine cycles – leaves all 16 bytes as
+    they were … -/
 theorem c18_wave_persist (a : Apu) (ops : List Op)
     (h : ∀ op ∈ ops, match op with
       | .write ad v => ¬(0xFF30 ≤ ad ∧ ad < 0xFF40) ∧ ¬(ad = 0xFF1E ∧ v % 256 ≥ 128)
       | .cycle => True) :
     (a.run ops).ch3.waveram = a.ch3.waveram := by
-  sorry
+  induction ops generalizing a with
+  | nil => rfl
+  | cons op ops ih =>
+    have hop := h op (List.mem_cons_self ..)
+    have hrest : ∀ op' ∈ ops, match op' with
+      | .write ad v => ¬(0xFF30 ≤ ad ∧ ad < 0xFF40) ∧ ¬(ad = 0xFF1E ∧ v % 256 ≥ 128)
+      | .cycle => True := fun op' hm => h op' (List.mem_cons_of_mem _ hm)
+    show ((a.step op).run ops).ch3.waveram = _
+    rw [ih (a.step op) hrest]
+    cases op with
+    | cycle => exact ram_endMachineCycle a
+    | write ad v =>
+      simp only at hop
+      refine ram_writeB a ad (v % 256) hop.1 (fun hc => hop.2 ⟨hc.1, ?_⟩)
+      have := hc.2
+      simp only [trigOf, decide_eq_true_eq] at this
+      omega
+
+/-- … and while channel 3 is off (which it is whenever sound is off, `c18_nr52_off`) a read of
+    FF30–FF3F returns exactly the stored byte. -/
+theorem c18_wave_read (a : Apu) (i : Nat) (hi : i < 16) (hoff : a.ch3.enabled = false) :
+    a.read (0xFF30 + i) = some (ramGet a.ch3.waveram i) := by
+  have hn : NotReg (0xFF30 + i) := by unfold NotReg; omega
+  rw [read_other _ _ hn (by omega)]
+  have h1 : ¬ (0xFF30 + i < 0xFF30) := by omega
+  have h2 : 0xFF30 + i < 0xFF40 := by omega
+  have h3 : 0xFF30 + i - 0xFF30 = i := by omega
+  simp only [if_neg h1, if_pos h2, h3, Wave.readRam, hoff, if_pos hi]
+  rfl
+
+/-- non-vacuity / the two together: a byte written to wave RAM is read back unchanged after a
+    power-off, a power-on, register writes and machine cycles -/
+example : (((Apu.new true true).write 0xFF26 0).run [.write 0xFF33 0x5A, .write 0xFF26 0x80, .write 0xFF1A 0x80,
+    .write 0xFF1E 0x47, .cycle, .write 0xFF26 0x00, .cycle, .write 0xFF26 0x80]).read 0xFF33 = some 0x5A := by
+  decide +kernel
 
 end Tetro.C18
